@@ -5,7 +5,7 @@ Writes <round-dir>/<pid>.property.json and <round-dir>/<pid>.PROMPT.md for every
 /verif/seeded/*/meta.json (summary, first 260 characters).  The agents see nothing else from /verif."""
 import json, os, re, sys, glob
 rd = sys.argv[1]
-tmpl = open(sys.argv[2] if len(sys.argv) > 2 else '/tmp/seed5/C07.PROMPT.md').read()
+tmpl = open(sys.argv[2] if len(sys.argv) > 2 else os.path.join(os.path.dirname(os.path.abspath(__file__)), 'prompts', 'seed_template.md')).read()
 head = tmpl.split('\n\nEarlier seeders already produced')[0]
 props = [json.loads(l) for l in open('/verif/properties.jsonl')]
 nxt = {}
